@@ -75,6 +75,13 @@ static void run() {
         std::string m = oracle(c); done++; if (!m.empty() && enum_fail(c, m)) return;
     }
     ev.enumerated["low-weight payloads (<=2 of 164 bits) x languages x coins{0,1,1024,2047} [this worker's shard]"] += done;
+    // (i') exhaustive: every birthday month x every holdable feature combination (16), random secret, language and coin rotating
+    { uint64_t done2 = 0; for (unsigned bd = 0; bd < 1024; bd++) for (unsigned fi = 0; fi < 16; fi++) {
+        if ((int)(idx++ % (uint64_t)a.nworkers) != a.worker) continue;
+        unsigned feat = (fi & 7u) | ((fi & 8u) << 1); SplitMix sm(mix64(a.seed * 7919 + bd * 16 + fi)); std::vector<uint8_t> sec(19); for (auto& b : sec) b = (uint8_t)sm.next();
+        Case c; c.set("secret", hex(sec)); c.set("birthday", (uint64_t)bd); c.set("features", feat); c.set("coin", sm.next() % 2048); c.set("lang", REG->at((bd + fi) % REG->size()).name_en); c.set("mask", 7); c.set("class", "birthday-x-features");
+        set_current(c); std::string m = oracle(c); done2++; if (!m.empty() && enum_fail(c, m)) return; }
+      ev.enumerated["every birthday month (1024) x every holdable feature combination (16) [this worker's shard]"] += done2; }
     // (ii) random
     rc_run("c03-random", a.n(60000, 400000), 100, [&]() {
         auto sc = *g::seed_coin(); auto sec = sc.sec; int bd = sc.bd; unsigned feat = sc.feat; int coin = sc.coin; int li = *g::lang_index(); if (sc.patterned) W().ev.count("gen:patterned-word-indices");
